@@ -3,7 +3,7 @@
    forget injected at every step. *)
 From Coq Require Import ZArith List Bool Lia.
 From MV Require Import Ast Eval Scalar Machine.
-From MV.Proofs Require Import Arith Logic Prim View OpsLocal Guards Drops DrainIt.
+From MV.Proofs Require Import Arith Logic Prim View OpsLocal Guards Drops DrainIt FilterIt.
 Import ListNotations.
 Open Scope Z_scope.
 
@@ -36,3 +36,21 @@ Proof. use forget_after_any_steps. Qed.
 
 Print Assumptions C05_length_is_cut_before_the_iterator_exists.
 Print Assumptions C05_forget_after_any_steps_leaves_the_prefix.
+
+(* creation: the length is cut to 0 before the iterator exists, and stays 0 while it lives -- a
+   forgotten DrainFilter leaves an EMPTY vector (a leak, nothing else) *)
+Theorem C05_drain_filter_creation :
+  forall cfg, cfg_ok cfg -> forall s v b bl sc,
+  vec_at s v b bl -> block_ok cfg bl -> init_upto (slots bl) (h_len bl) ->
+  (forall e, In e (velems bl) -> ledger s e = Live) ->
+  exists s' f, make_filter v sc s = (Val f, s') /\ finv cfg s' f b (velems bl) [] /\ fframe s s' b /\
+               f_vec f = v /\ f_pos f = 0 /\ f_new f = 0 /\ f_old f = h_len bl /\ f_pred f = sc /\ f_panicked f = false.
+Proof. exact make_filter_spec. Qed.
+
+Theorem C05_drain_filter_vector_is_empty_while_the_iterator_lives :
+  forall cfg s f b orig kept, finv cfg s f b orig kept ->
+  exists bl, vec_at s (f_vec f) b bl /\ block_ok cfg bl /\ velems bl = [].
+Proof. exact finv_vector_is_empty. Qed.
+
+Print Assumptions C05_drain_filter_creation.
+Print Assumptions C05_drain_filter_vector_is_empty_while_the_iterator_lives.
